@@ -52,7 +52,8 @@ static PyObject* PyCGauleg_cgauleg(PyObject* self, PyObject* args) {
 
 		z=cos( pi*(i-0.25)/(npts+.5) );
 
-		abszdiff = fabs(z-z1);
+		// always do at least one iteration
+		abszdiff = 2*EPS;
 
 		while (abszdiff > EPS) 
 		{
